@@ -50,11 +50,17 @@ type Text struct {
 	S32 string   `serix:",lenPrefix=uint32"`
 	B8  []byte   `serix:",lenPrefix=uint8,maxLen=10"`
 	B16 []byte   `serix:",lenPrefix=uint16"`
-	B32 []byte   `serix:",lenPrefix=uint32,minLen=1"`
 	A3  [3]byte  `serix:""`
 	H32 [32]byte `serix:""`
 	N   Name     `serix:""`
 	BL  Blob     `serix:""`
+}
+
+// Blob32 isolates the one uint32-prefixed byte slice of the zoo: the decoder allocates from that prefix,
+// so the field comes first (no fault in front of it can shift what is read as its prefix).
+type Blob32 struct {
+	B32 []byte `serix:",lenPrefix=uint32,minLen=1"`
+	Z   uint16 `serix:""`
 }
 
 type Stamp struct {
@@ -311,8 +317,10 @@ var (
 		f("I8", nI8), f("I16", nI16), f("I32", nI32), f("I64", nI64), f("F32", nF32), f("F64", nF64))
 
 	nText = st("Text", -1, 0, f("S8", str(1, 0, 0)), f("S16", str(2, 1, 12)), f("S32", str(4, 0, 0)),
-		f("B8", byt(1, 0, 10)), f("B16", byt(2, 0, 0)), f("B32", byt(4, 1, 0)), f("A3", barr(3)), f("H32", barr(32)),
+		f("B8", byt(1, 0, 10)), f("B16", byt(2, 0, 0)), f("A3", barr(3)), f("H32", barr(32)),
 		f("N", nName), f("BL", nBlob))
+
+	nBlob32 = st("Blob32", -1, 0, f("B32", byt(4, 1, 0)), f("Z", nU16))
 
 	nStamp = st("Stamp", -1, 0, f("N", nU256), f("T", nTime), f("When", sl(nTime, 1, 0, 3)), f("Amts", sl(nU256, 2, 0, 0)))
 
@@ -371,11 +379,15 @@ type entry struct {
 	// decodeBroken marks a type for which Decode of a *valid* encoding does not return (known defect
 	// under its own signature); such types are kept out of the fault legs so that they do not flood them.
 	decodeBroken bool
+	// allocProne: contains a 4-byte length prefix the decoder allocates from; only used as a top-level
+	// fault target (never as a nested payload, never with byte-shifting faults), see faults.go dangerous().
+	allocProne bool
 }
 
 var zoo = []*entry{
 	{name: "leaf", n: nLeaf, rt: reflect.TypeOf(Leaf{}), json: true},
 	{name: "text", n: nText, rt: reflect.TypeOf(Text{}), json: true},
+	{name: "blob32", n: nBlob32, rt: reflect.TypeOf(Blob32{}), json: true, allocProne: true},
 	{name: "stamp", n: nStamp, rt: reflect.TypeOf(Stamp{}), json: true},
 	{name: "wrap", n: nWrap, rt: reflect.TypeOf(Wrap{}), json: true},
 	{name: "coll", n: nColl, rt: reflect.TypeOf(Coll{}), json: true},
